@@ -20,6 +20,7 @@ package security
 
 import (
 	"crypto/md5"
+	"crypto/rand"
 	"crypto/sha1"
 	"encoding/base32"
 	"encoding/base64"
@@ -45,6 +46,17 @@ var next = uint64(
 // NewID generates a new, process-wide unique ID.
 func NewID() ID {
 	return ID(atomic.AddUint64(&next, 1))
+}
+
+// NewSecret returns a fresh unpredictable value (128 bits from crypto/rand,
+// as 32 hex digits). Tokens and nonces must come from here and not from NewID:
+// the NewID counter is disclosed in every Session header and channel id.
+func NewSecret() string {
+	var b [16]byte
+	if _, err := rand.Read(b[:]); err != nil {
+		panic("security: no entropy: " + err.Error())
+	}
+	return hex.EncodeToString(b[:])
 }
 
 // Unique generates unique id based on the current id with a prefix and salt.
